@@ -35,14 +35,18 @@ def check(ctx):
         ('Transformer._create_typedef', 'ast.Alias', 'Alias', 'ctype', 'symbol.ident'),
     ]
     for fn, callee, cls, param, want in sites:
-        f = py.func(TR, fn)
-        cs = [c for c in P.calls_in(f) if P.call_name(c) == callee]
+        # gated summary with private helpers inlined: the construction may sit in an extracted helper; locals are copy-propagated
+        FS = gsa.summarise(ctx, TR, fn, depth=1)
+        pat = r'^(%s|ast\.(Enum|Bitfield))$' % re.escape(callee) if callee == 'klass' else r'^%s$' % re.escape(callee)
+        cs = [e for e in gsa.find(FS, 'call', pat) if e.vnode is not None]
         if not cs:
             raise AnalysisError('%s: no %s(...) construction' % (fn, callee))
-        for c in cs:
-            b = P.bind_call(c, py.func('ast', '%s.__init__' % cls))
-            r1.check(P.src(b.get(param)) == want, '%s: %s(%s=%s)' % (fn.split('.')[1], cls, param, want), tm.rel, c.lineno,
-                     '%s builds %s with %s=%s: the GIR no longer carries the original C name' % (fn, cls, param, P.src(b.get(param))), detail=P.src(b.get(param)))
+        for e in cs:
+            b = P.bind_call(e.vnode, py.func('ast', '%s.__init__' % cls))
+            got = gsa._unparse(b.get(param)) if b.get(param) is not None else None
+            want_ = want.replace('symbol.', FS.P(1) + '.') if want.startswith('symbol.') else want
+            r1.check(got == want_ or (want.startswith('child.') and got is not None and re.match(r'^\w+\.ident$', got)), '%s: %s(%s=%s)' % (fn.split('.')[1], cls, param, want), tm.rel, e.line,
+                     '%s builds %s with %s=%s: the GIR no longer carries the original C name' % (fn, cls, param, got), detail=got)
     tc = py.func(TR, 'Transformer._create_typedef_compound')
     ctor = [c for c in P.calls_in(tc) if P.call_name(c) == 'compound_class']
     r1.check(len(ctor) == 2 and all(len(c.args) >= 2 and P.src(c.args[1]) == 'symbol.ident' for c in ctor), 'typedef compound built with the typedef name as c:type', tm.rel, tc.lineno,
